@@ -31,7 +31,7 @@ type Op struct {
 	Name  string   `json:"n,omitempty"`
 	Val   int      `json:"v,omitempty"`
 	Addr  bool     `json:"addr,omitempty"`  // store an addressable value
-	Iface int      `json:"iface,omitempty"` // 1: use the interface{} variant of the call; 2: and pass nil
+	Iface int      `json:"iface,omitempty"` // 1: use the interface{} variant of the call; 2: and pass nil; 3 (types): and pass the reflect.Type itself
 	Path  []string `json:"path,omitempty"`
 	Stub  int      `json:"stub,omitempty"`
 }
@@ -330,7 +330,7 @@ func (Prop) Gen(seed int64, tier string) *harness.Case {
 			op.Name = tNames[r.Intn(len(tNames))]
 			op.Val = 1 + r.Intn(len(typePool)-1)
 			if r.Intn(3) == 0 {
-				op.Iface = 1 + r.Intn(2)
+				op.Iface = 1 + r.Intn(3)
 			}
 		case "EnvFromPath":
 			n := r.Intn(4)
@@ -604,7 +604,7 @@ func (r *run) step(op Op) (msg string) {
 			targ, tname = nil, "<nil>"
 		} else if op.Iface == 1 {
 			targ = reflect.Zero(typePool[op.Val]).Interface() // a value of the type
-		}
+		} // 3: the reflect.Type itself travels through the interface{} parameter
 		switch {
 		case op.Kind == "DefineType" && op.Iface > 0:
 			err = e.DefineType(op.Name, targ)
